@@ -78,6 +78,26 @@ pub fn c08(o: &Opts) -> Outcome {
             if let Some(w) = c08_batch(&recs, k, 2, 3, true, 2, mem) { return Outcome { cases, witness: Some(w) }; }
         }
     }
+    // multiplicities that are exact multiples of the bin size (bin boundaries), many bins, multi-chunk counting
+    for bs in [3usize, 5, 7, 10, 49, 98, 107] {
+        for mult in [1usize, 2, 3] {
+            let k = 7usize;
+            let recs = vec![vec![b'A'; bs * mult + k - 1], vec![b'C'; bs * (mult + 1) + k - 1], b"ACGTACGTTTGACCA".to_vec()];
+            cases += 1;
+            if let Some(w) = c08_batch(&recs, k, bs, 5, false, 1, 6.0) { return Outcome { cases, witness: Some(w) }; }
+        }
+    }
+    {
+        let recs = vec![vec![b'A'; 400], vec![b'G'; 300], b"ACGTACGTAC".to_vec()];
+        cases += 1;
+        if let Some(w) = c08_batch(&recs, 7, 1, 300, false, 2, 6.0) { return Outcome { cases, witness: Some(w) }; }
+        // several chunks in the counting phase (tiny memory ceiling), identical records
+        let same: Vec<Vec<u8>> = (0..6).map(|_| b"ACGGTCATTGACCAGTTAGGCATCA".to_vec()).collect();
+        for threads in [1usize, 4] {
+            cases += 1;
+            if let Some(w) = c08_batch(&same, 5, 2, 8, false, threads, 1e-7) { return Outcome { cases, witness: Some(w) }; }
+        }
+    }
     let rounds = if o.thorough { 60 } else { 14 };
     for round in 0..rounds {
         let k = [1usize, 2, 3, 5, 8, 15, 31][round % 7];
